@@ -377,7 +377,11 @@ class Exec:
                         evR = SpecEval(V, self.pkg, env_r, self.heap, old=self.top_entry_heap(), results=rsv_)
                         for (lab, ast, txt) in self.contract['returns']:
                             mql_ = re.search(r'@L(\d+)$', lab or '')
-                            if mql_:
+                            if mql_ and int(mql_.group(1)) == 0:
+                                # return@L0: the returns that leave from inside no loop
+                                if any(x_ != h_ and x_ in self.cfg['dom'][b] for h_, l in self.cfg['loops'].items() for x_ in l['body']):
+                                    continue
+                            elif mql_:
                                 lpq_ = [(h_, l) for h_, l in self.cfg['loops'].items() if l['ordinal'] == int(mql_.group(1))]
                                 # a return leaves the loop, so it is never in the natural loop body: it belongs to loop k
                                 # when a body block other than the head dominates it (code after the loop is dominated
@@ -712,10 +716,28 @@ class Exec:
             ev_ = entry_vals[ph['name']]
             if z3.is_int_value(ev_) and ev_.as_long() == -1:
                 self.hyp(z3.Implies(bound >= 0, self.env[ph['name']] <= bound - 1))
+        if self.top and lc.get('complete'):
+            bad_ = []
+            for b_ in L['body']:
+                if b_ == h:
+                    continue
+                for s_ in self.fn['blocks'][b_]['succs']:
+                    if s_ in L['body']:
+                        continue
+                    tb_ = self.fn['blocks'][s_]
+                    if tb_['succs'] or not tb_['instrs'] or tb_['instrs'][-1]['op'] not in ('Return', 'Panic'):
+                        bad_.append((b_, s_))
+            for lab_ in lc['complete']:
+                V.add_obl('complete', z3.BoolVal(not bad_), z3.BoolVal(True), '', label='L%d.%s' % (st.ordinal, lab_),
+                          text='loop %d is left only through its head or by returning (no break): %s' % (st.ordinal, 'ok' if not bad_ else 'early exit edges %s' % bad_))
         # 3. assume invariants
         env_head = self.spec_env(names)
         st.env_head = env_head
         st.head_heap = self.heap.copy()
+        if self.top:
+            # atexit(k, e): the loop is cut at its head, so the state in which it is left is this head state
+            V.loop_head_states = getattr(V, 'loop_head_states', {})
+            V.loop_head_states[str(L['ordinal'])] = (st.head_heap, dict(env_head))
         evH = SpecEval(V, self.pkg, env_head, self.heap, old=self.top_entry_heap(), loop_old=(entry_heap, env_entry))
         hb_ = len(V.hyps)
         for k, (lab, ast, txt) in enumerate(lc['invariant']):
